@@ -118,6 +118,12 @@ add("C14", "exploration",
     "Restore runs as root (ownership not compared); pre-existing differing files always carry another mtime (premise when verify_existing is off). The manifest comparison sees persistent changes outside the destination, not transient ones.",
     "DESIGN.md section 5 C14")
 
+add("C18", "exploration",
+    "runtime monitor: configuration-space sweep (every ConfigOptions field alone over boundary values, exhaustively; interacting combinations and change sequences sampled) with a panic-capturing smoke run (backup, check, full read-back) for accepted configurations, field-wise diff of the decoded stored config, storage-event check for refused changes; PruneOptions limit/span sweep",
+    "Held on the enumerated single-field space and the sampled combinations; every step runs under catch_unwind in an overflow-checking build so arithmetic bugs surface as panics.",
+    "Allocation-failure aborts would escape catch_unwind (none observed); compression levels >= 15 are sampled.",
+    "DESIGN.md section 5 C18")
+
 NOT_YET = "check not built yet (work in progress in this round)"
 
 def main():
